@@ -997,7 +997,9 @@ func (r *messageReader) Read(b []byte) (int, error) {
 				c.readMaskPos = maskBytes(c.readMaskKey, c.readMaskPos, b[:n])
 			}
 			c.readRemaining -= int64(n)
-			if c.readRemaining > 0 && c.readErr == io.EOF {
+			// The message is complete at the end of its final frame only, a
+			// stream which ends anywhere else is cut inside the message.
+			if c.readErr == io.EOF && (c.readRemaining > 0 || !c.readFinal) {
 				c.readErr = errUnexpectedEOF
 			}
 			return n, c.readErr
